@@ -90,6 +90,11 @@ fn targets<T: Float + std::fmt::Debug + num_traits::FloatConst>() -> Vec<(AnyGT<
         (AnyGT::Gauss2D(DiffableGaussian2D::new([f(0.0), f(1.0)], [[f(4.0), f(2.0)], [f(2.0), f(3.0)]])), vec![0.5, -0.5], "DiffableGaussian2D"),
         (AnyGT::Rosen2D(Rosenbrock2D { a: f(1.0), b: f(10.0) }), vec![0.2, 0.4], "Rosenbrock2D"),
         (AnyGT::GaussND(GaussND::new(3, 7)), vec![0.3, -0.2, 0.1], "GaussND(3)"),
+        // targets with NaN regions: only the invariants (positive finite step size, recurrences where the
+        // acceptance statistic is finite) are demanded; the eps0 variants are not compared
+        (AnyGT::NanPocket, vec![0.9], "NanPocket(1)"),
+        (AnyGT::NanPocket, vec![1.0, -0.5], "NanPocket(2)"),
+        (AnyGT::LogX, vec![0.8, 1.2], "Gamma(2,1)^2"),
     ]
 }
 
@@ -169,7 +174,9 @@ fn check_history(ctx: &Ctx, rt: &RefT, obs: &[RunObs], delta: f64, f32s: bool, c
         if ri == 0 {
             // eps0 from the doubling/halving heuristic at the start point; mu = ln(10 eps0)
             let (cands, margin) = eps0_candidates(rt, &ro.start_pos, &ro.init_momentum);
-            if margin < if f32s { 1e-3 } else { 1e-7 } {
+            if tname.starts_with("NanPocket") || tname.starts_with("Gamma") {
+                ctx.outcome("eps0 not compared (target with a NaN region)", 1);
+            } else if margin < if f32s { 1e-3 } else { 1e-7 } {
                 ctx.outcome("eps0-ambiguous(threshold inside margin)", 1);
             } else if !cands.iter().any(|c| (c - eps_init).abs() <= 1e-12 * c) {
                 ctx.violation(mk("C04:eps0-heuristic", format!("initial step size {eps_init} is neither variant of the doubling/halving heuristic ({cands:?}) for start {:?} and momentum {:?}", ro.start_pos, ro.init_momentum)));
@@ -292,12 +299,16 @@ where
     let seeds: Vec<u64> = if ctx.tier.thorough() { vec![1, 2, 3] } else { vec![1] };
     let mut cfgs = vec![];
     for ti in 0..tg.len() {
-        if f32s && ti > 0 {
-            continue; // f32 scalars on one target only
+        if f32s && !(ti == 0 || ti == 3 || ti == 5) {
+            continue; // f32 scalars on three targets only
         }
         for &delta in &deltas {
             for &seed in &seeds {
                 for h in hists.iter() {
+                    // NaN-region targets: single runs and the long warm-ups only in the quick tier
+                    if ti >= 3 && !ctx.tier.thorough() && h.len() == 2 {
+                        continue;
+                    }
                     cfgs.push(Cfg { target: ti, delta, seed, runs: h.clone() });
                 }
             }
